@@ -407,7 +407,7 @@ def gen_deck(rng, wild=False):
 DENSITY_POOL = ['-1.0', '-1.00', '-2.7', '-2.70', '-2.7e0', '0.0602', '6.02-2',
                 '6.02e-2', '6.02E-2', '-19.1', '1', '1.', '1.0', '-11.35',
                 '-1.135+1', '-1.135d+1', '4.0e0', '0.1', '.1', '-0.5', '-.5',
-                '2.50', '2.5', '-1.50e3', '-1.5e3', '3+0', '1.5-0']
+                '2.50', '2.5', '-1.50e3', '-1.5e3', '3+0', '1.5-0', '-0.0', '-0']
 
 
 def gen_cells(rng, n_univ=None, malformed=False):
